@@ -1276,7 +1276,7 @@ func init() {
 			"descriptors kept by design by a successful constructor are not leaks; they must be gone after Close",
 			"the AsyncAdapter/net.Conn ownership question (adapter.Close closes the number behind net.Conn) is exercised through the websocket stream only",
 		},
-		NumCases: func(tier, build string) int { return vf.Tiered(tier, 10, 600) },
+		NumCases: func(tier, build string) int { return vf.Tiered(tier, 20, 600) },
 		Shards:   func(tier, build string) int { return vf.Tiered(tier, 5, 15) },
 		Floor:    func(tier string) int { return vf.Tiered(tier, 5, 20) },
 		Run:      runC13,
